@@ -24,6 +24,26 @@ PROPERTY C12_EstabStable
 CHECK_DEADLOCK FALSE
 '''
 
+# code-like deviations of Negotiation.tla -> the design check must reject each (non-vacuity), in the smallest pool
+NEG_DEVS = {"SwallowVoluntaryError": "a voluntary feature's Negotiate error is overwritten by the next feature",
+            "SwallowListError": "the error of a feature's List step is overwritten (by the result of closing the writer), the partial list stands",
+            "SwallowParseError": "the error of a feature's Parse step is dropped, the entry stands"}
+
+
+def nonvacuity(ctx, pool_exec=None):
+    """Each deviation switched on must break the design check (TLC must FAIL)."""
+    def one(d):
+        cfg = (MC_CFG % dict(pool="PoolTiny", maxcfg=2, rounds=2, maxlist=1)).replace("Dev = {}", 'Dev = {"%s"}' % d)
+        cfg = "\n".join(l for l in cfg.split("\n") if not l.startswith(("INVARIANT", "PROPERTY"))) + "INVARIANT C04_NoSwallow\n"
+        r = ctx.tlc("MCNegotiation", cfg, name="MCNegotiation_" + d, workers=2, timeout=600)
+        if r.rc == 0 or "C04_NoSwallow" not in r.out:
+            raise verif.Undecided("design check is vacuous: deviation %s of Negotiation.tla does not break C04_NoSwallow" % d)
+        return d
+    if pool_exec is None:
+        return [one(d) for d in NEG_DEVS]
+    return [pool_exec.submit(one, d) for d in NEG_DEVS]
+
+
 TR_CONSTS = '''CONSTANTS
   Pool <- PoolThorough
   InitBitsSet <- InitBitsAll
@@ -76,10 +96,20 @@ def report_rejections(ctx, trace, rejected, what="negotiation trace not a behavi
     evs = verif.read_ndjson(trace)
     trs = verif.split_traces(evs)
     meta = {m["t"]: m["meta"] for m in verif.read_ndjson(trace + ".meta")}
-    for t, hw in sorted(rejected.items())[:50]:
+    def rank(item):
+        # the most telling rejections first: establishment reported as successful
+        tr = trs[item[0]]
+        return (0 if tr[-1].get("ok") is True else 1, item[0])
+    for t, hw in sorted(rejected.items(), key=rank)[:50]:
         tr = trs[t]
         rej = [e for e in tr if e["_line"] == hw]
-        ctx.violation("%s: scenario %s rejected at event %s" % (what, json.dumps(meta.get(t))[:300], json.dumps(rej[0] if rej else None)[:300]),
+        hint = ""
+        bad = [e for e in tr if e["_line"] < hw and e["ev"] in ("negret", "list", "parse") and e.get("ok") is False]
+        if bad and not (rej and rej[0]["ev"] == "return" and rej[0].get("ok") is False):
+            step = {"negret": "Negotiate", "list": "List", "parse": "Parse"}[bad[-1]["ev"]]
+            hint = " [the %s step of feature %s had reported an error and establishment went on%s]" % (
+                step, bad[-1]["f"], "; the call returned nil" if tr[-1].get("ok") is True else "")
+        ctx.violation("%s: scenario %s rejected at event %s%s" % (what, json.dumps(meta.get(t))[:300], json.dumps(rej[0] if rej else None)[:300], hint),
                       {"family": "neg", "scenario": meta.get(t), "trace": tr, "rejected_line": hw,
                        "rejected_event": rej[0] if rej else None})
 
@@ -89,9 +119,10 @@ def selftest_binding(ctx, trace):
     one negret / the ok of the return, (b) drop one negotiate event; TLC must reject both."""
     evs = verif.read_ndjson(trace)
     trs = verif.split_traces(evs)
-    good = [t for t, tr in trs.items() if any(e["ev"] == "negotiate" for e in tr) and tr[-1].get("ok") is True]
+    good = [t for t, tr in trs.items() if any(e["ev"] == "negotiate" for e in tr) and tr[-1].get("ok") is True
+            and any(e["ev"] in ("list", "parse") for e in tr)]
     if not good:
-        raise verif.Undecided("binding self-test: no successful trace with a negotiate event")
+        raise verif.Undecided("binding self-test: no successful trace with a negotiate event and a List / Parse step")
     src = trs[good[0]]
     def strip(e):
         return {k: v for k, v in e.items() if k != "_line"}
@@ -108,6 +139,10 @@ def selftest_binding(ctx, trace):
     i = [k for k, e in enumerate(m3) if e["ev"] == "negotiate"][0]
     m3[i]["bits"] = sorted(set(m3[i]["bits"]) ^ {"Authn"})
     mutants.append(("negotiate.bits corrupted", m3))
+    m4 = [dict(e) for e in base]
+    i = [k for k, e in enumerate(m4) if e["ev"] in ("list", "parse")][0]
+    m4[i]["ok"] = False
+    mutants.append(("a List / Parse step reports an error, establishment still succeeds", m4))
     p = ctx.path("selftest.ndjson")
     line = 0
     with open(p, "w") as f:
